@@ -70,3 +70,12 @@ package history
 //@ loop 2
 //@   invariant fresh(queryFreqs) && len(queryFreqs) == $n
 //@   invariant forall a int :: 0 <= a && a < len(queryFreqs) ==> (queryFreqs[a].Query in frequency) && queryFreqs[a].Count == frequency[queryFreqs[a].Query]
+
+// C09: the history file is replaced atomically (utils.WriteFileAtomic): it is never the target
+// of a non-atomic write, a failed save leaves it as it was and is reported.
+//@ func (*SearchHistory).Save
+//@   requires !fsPartial(sh.FilePath)
+//@   modifies ghost(fsPartial), ghost(fsWhole)
+//@   ensures[C09.history-never-partial] !fsPartial(sh.FilePath)
+//@   ensures[C09.history-success-is-whole] result == nil ==> fsWhole(sh.FilePath)
+//@   ensures[C09.history-failure-keeps-old] result != nil ==> fsWhole(sh.FilePath) == old(fsWhole(sh.FilePath))
